@@ -137,6 +137,14 @@ def kf_same_component(group_systems):
     return False
 
 
+def kf_state_without_equation(impl_line):
+    """matcher of C05-state-without-equation: a state whose equations() is empty"""
+    for it in fields(impl_line).get("S", "").split(";"):
+        if it and it.split(":")[3] == "":
+            return True
+    return False
+
+
 def kf_nla_split(impl_line):
     """matcher of C05-nla-system-split: an NLA equation one of whose siblings has another sibling set / system index"""
     f = fields(impl_line)
@@ -329,6 +337,10 @@ def run(ctx):
                     "C05-nla-system-split",
                     "a variable is computed by NLA equations of different NLA systems: %s" % A.to_model_line(s)[:80]):
                 demanded.remove("3")
+            if "3" in demanded and kf_state_without_equation(c) and ctx.known_finding(
+                    "C05-state-without-equation",
+                    "a state is computed by no equation (the equation mentioning its rate was discarded): %s" % A.to_model_line(s)[:80]):
+                demanded.remove("3")
             if demanded:
                 violation("C05 oracle: valid AnalyserModel is not well formed: %s" % ", ".join(WF_NAMES.get(x, x) for x in demanded),
                           "wf", payload(i))
@@ -422,6 +434,9 @@ def run(ctx):
                         pass
                     if t in VALID and not _copy_reads_initialised(flat[i][3], tr["added"]):
                         bad = "expected over-constrained after duplicating an equation"
+                        if kf_state_without_equation(impl[i]) and ctx.known_finding(
+                                "C05-state-without-equation", "an untyped equation (and its copy) is discarded: %s" % mlines[i][:80]):
+                            bad = None
             if bad:
                 violation("C05 oracle: ground truth: %s" % bad, "truth", payload(i, {"expected": tr}))
 
